@@ -28,11 +28,12 @@ class EvGen:
     """action: None | 'void' | 'bool' | 'void0' | 'bool0';  unwind: control has unwind();
     action_unwind: whether an exception thrown by a rule's own action is reported as unwind of that rule."""
 
-    def __init__(s, doc, action=None, unwind=True, action_unwind=True):
+    def __init__(s, doc, action=None, unwind=True, action_unwind=True, rof=()):
         s.doc = doc
         s.action = action
         s.unwind = unwind
         s.action_unwind = action_unwind
+        s.rof = set(rof)   # rule ids whose control raises on local failure (must_if)
         s.fns = {}
         s.order = []
 
@@ -69,7 +70,10 @@ class EvGen:
                 L.append('    if (v == 0) ok = 0;')
             L.append('  }')
         L.append('  if (ok) { sv(%d, %d, b.pos, 0); return b; }' % (EV['SUCCESS'], r))
-        L.append('  sv(%d, %d, 0, 0); return sp_fail(p, b.far);' % (EV['FAILURE'], r))
+        if r in s.rof:
+            L.append('  sv(%d, %d, 0, 0); { out_t x = { 2, p, %d, p, b.far }; return x; }' % (EV['RAISE'], r, r))
+        else:
+            L.append('  sv(%d, %d, 0, 0); return sp_fail(p, b.far);' % (EV['FAILURE'], r))
         return '\n'.join(L)
 
     def body(s, e):
@@ -216,9 +220,9 @@ static void harness(void) {
 '''
 
 
-def harness_text(expr_text, wrappers, N, K, doc, action=None, unwind=True, maxres=3, vetomax=2, evmax=24, action_unwind=True, reach=(), lazy=False):
+def harness_text(expr_text, wrappers, N, K, doc, action=None, unwind=True, maxres=3, vetomax=2, evmax=24, action_unwind=True, reach=(), lazy=False, rof=()):
     """wrappers: list of (wrapper function name, actions_enabled 0/1, rewind required 0/1)"""
-    g = EvGen(doc, action=action, unwind=unwind, action_unwind=action_unwind)
+    g = EvGen(doc, action=action, unwind=unwind, action_unwind=action_unwind, rof=rof)
     e = parse(expr_text)
     fn = g.fn(e)
     calls = []
